@@ -3,6 +3,7 @@
 //
 //	import "sync"  ->  sync "verif.local/engine/vrt/vsync"
 //	import "time"  ->  time "verif.local/engine/vrt/vtime"
+//	import "sync/atomic"  ->  atomic "verif.local/engine/vrt/vatomic"
 //	<-x            ->  __vrt.Recv(x)
 //	x <- v         ->  __vrt.Send(x, v)
 //	select {...}   ->  switch __vrt.Select(hasDefault, cases...) { case -2: <original select>; case i: <comm i>; body i; case -1: default body }
@@ -105,7 +106,10 @@ func rewriteFile(src, dst string) error {
 				im.Name = ast.NewIdent("time")
 			}
 		case "sync/atomic":
-			unsupported = append(unsupported, "import of sync/atomic (not modelled)")
+			im.Path.Value = strconv.Quote("verif.local/engine/vrt/vatomic")
+			if im.Name == nil {
+				im.Name = ast.NewIdent("atomic")
+			}
 		}
 	}
 
@@ -192,6 +196,9 @@ func rewriteFile(src, dst string) error {
 				// case -2: the original select (outside a managed execution)
 				orig := &ast.SelectStmt{Body: &ast.BlockStmt{List: cloneClauses(v.Body.List)}}
 				clauses = append([]ast.Stmt{&ast.CaseClause{List: []ast.Expr{&ast.UnaryExpr{Op: token.SUB, X: &ast.BasicLit{Kind: token.INT, Value: "2"}}}, Body: []ast.Stmt{orig}}}, clauses...)
+				// (a select whose clauses all return is a terminating statement; the switch needs a
+				// default clause to be one too)
+				clauses = append(clauses, &ast.CaseClause{Body: []ast.Stmt{&ast.ExprStmt{X: call(ast.NewIdent("panic"), &ast.BasicLit{Kind: token.STRING, Value: strconv.Quote("vrt: Select returned an unknown clause")})}}})
 				c.Replace(&ast.SwitchStmt{Tag: call(sel(vrtName, "Select"), args...), Body: &ast.BlockStmt{List: clauses}})
 			}
 			return true
